@@ -369,132 +369,76 @@ def multiscale_rule(ctx):
             st.fail(Finding("MS-STATE", add.module, add.qualname, add.node, "add_transform never records the output shape", construct="append of _output_shapes"))
         elif not st.findings:
             st.fail(Finding("MS-STATE", add.module, add.qualname, appends[0][1], "the append to _output_shapes is conditional"))
-    # (b) forward: chunk
-    chunks = [n for n in ast.walk(fwd.node) if isinstance(n, ast.Call) and norm_text(n.func) in ("torch.chunk",) or (isinstance(n, ast.Call) and isinstance(n.func, ast.Attribute) and n.func.attr == "chunk")]
-    if len(chunks) != 1:
-        res.undecide("forward", "expected exactly one chunk call")
-    else:
-        c = chunks[0]
-        kw = {k.arg: k.value for k in c.keywords}
-        nchunks = kw.get("chunks", c.args[1] if len(c.args) > 1 else None)
-        dim = kw.get("dim", c.args[2] if len(c.args) > 2 else None)
-        if const_number(nchunks) != 2:
-            res.fail(Finding("MS-SPLIT", fwd.module, fwd.qualname, c, "forward must split into two chunks"))
-        elif dim is None or norm_text(dim) != "self._split_dim":
-            res.fail(Finding("MS-SPLIT", fwd.module, fwd.qualname, c, "forward must split along self._split_dim of the batched tensor (found `%s`)" % (norm_text(dim) if dim is not None else "0")))
-        else:
-            res.ok("forward: torch.chunk(chunks=2, dim=self._split_dim)")
-        asg = getattr(c, "_parent", None)
-        if isinstance(asg, ast.Assign) and isinstance(asg.targets[0], ast.Tuple) and len(asg.targets[0].elts) == 2:
-            emitted, carried = (norm_text(e) for e in asg.targets[0].elts)
-            # the carried part is what the next stage receives; the emitted part is yielded
-            loop = asg
-            while loop is not None and not isinstance(loop, ast.For):
-                loop = getattr(loop, "_parent", None)
-            ytxt = [norm_text(n.value) for n in ast.walk(loop) if isinstance(n, ast.Yield)] if loop is not None else []
-            call_args = [norm_text(n.args[0]) for n in ast.walk(loop) if isinstance(n, ast.Call) and isinstance(n.func, ast.Name) and n.args] if loop is not None else []
-            if ytxt and ytxt[0].startswith("(%s," % emitted) and carried in call_args:
-                res.ok("forward: first chunk `%s` is emitted, second chunk `%s` is carried to the next stage" % (emitted, carried))
+    # (b)-(e) forward and inverse against the specification, by partial evaluation for 1, 2, 3
+    # and 4 stages: containers / loops / generators / slices are evaluated concretely, tensors
+    # stay uninterpreted terms (nfstatic/peval.py)
+    from ..peval import PEval, Obj, Stage, Shape, Sym, Undecided as PUndecided, mk_sum, show
+
+    def spec_forward(k, x, ctx, d):
+        h = x
+        pieces, lds = [], []
+        for i in range(1, k + 1):
+            t = ("out", "T%d" % i, "fwd", h, ctx)
+            lds.append(("ld", "T%d" % i, "fwd", h, ctx))
+            if i < k:
+                pieces.append(("flat", ("ch", t, 0, d)))
+                h = ("ch", t, 1, d)
             else:
-                res.fail(Finding("MS-SPLIT", fwd.module, fwd.qualname, asg, "forward must emit the first chunk and pass the second chunk to the next stage"))
-            # inverse concatenation order
-            cats = [n for n in ast.walk(inv.node) if isinstance(n, ast.Call) and norm_text(n.func) == "torch.cat"]
-            if len(cats) != 1:
-                res.undecide("inverse", "expected exactly one torch.cat")
+                pieces.append(("flat", t))
+        return ("cat", tuple(pieces), "last"), mk_sum(*lds)
+
+    def spec_inverse(k, y, ctx, d):
+        cum = [0]
+        for i in range(1, k + 1):
+            cum.append(mk_sum(cum[-1], ("numel", "S%d" % i)))
+        piece = {i: ("view", ("slice", y, cum[i - 1], cum[i]), "S%d" % i) for i in range(1, k + 1)}
+        lds = []
+        arg = piece[k]
+        h = ("out", "T%d" % k, "inv", arg, ctx)
+        lds.append(("ld", "T%d" % k, "inv", arg, ctx))
+        for i in range(k - 1, 0, -1):
+            arg = ("cat", (piece[i], h), d)
+            lds.append(("ld", "T%d" % i, "inv", arg, ctx))
+            h = ("out", "T%d" % i, "inv", arg, ctx)
+        return h, mk_sum(*lds)
+
+    def first_difference(got, want, where="result"):
+        if got == want:
+            return None
+        if isinstance(got, tuple) and isinstance(want, tuple) and got and want and got[0] == want[0] and len(got) == len(want):
+            for i, (g, w) in enumerate(zip(got[1:], want[1:])):
+                dd = first_difference(g, w, "%s > %s" % (where, got[0]))
+                if dd:
+                    return dd
+        return "%s: found `%s`, the composition requires `%s`" % (where, show(got)[:110], show(want)[:110])
+
+    for fi, spec, nm in ((fwd, spec_forward, "forward"), (inv, spec_inverse, "inverse")):
+        decided = 0
+        for k in (1, 2, 3, 4):
+            obj = Obj({
+                "_transforms": [Stage("T%d" % i) for i in range(1, k + 1)],
+                "_output_shapes": [Shape("S%d" % i) for i in range(1, k + 1)],
+                "_split_dim": Sym(("split_dim",)),
+                "_num_transforms": k,
+            })
+            pe = PEval(obj)
+            try:
+                r = pe.call_method(fi.node, [Sym(("x",)), Sym(("ctx",))])
+                if not (isinstance(r, tuple) and len(r) == 2 and all(isinstance(v, Sym) for v in r)):
+                    raise PUndecided("%s does not return a pair of tensors" % nm)
+            except PUndecided as ex:
+                res.undecide("MultiscaleCompositeTransform.%s with %d stage(s)" % (nm, k), str(ex))
+                continue
+            except RecursionError:
+                res.undecide("MultiscaleCompositeTransform.%s with %d stage(s)" % (nm, k), "evaluation too deep")
+                continue
+            want_out, want_ld = spec(k, ("x",), ("ctx",), ("split_dim",))
+            dd = first_difference(r[0].term, want_out, "outputs") or first_difference(r[1].term, want_ld, "log-det")
+            if dd is None:
+                decided += 1
+                res.ok("%s with %d stage(s) = %s" % (nm, k, show(want_out)[:100]))
             else:
-                cat = cats[0]
-                dim = next((k.value for k in cat.keywords if k.arg == "dim"), cat.args[1] if len(cat.args) > 1 else None)
-                if dim is None or norm_text(dim) != "self._split_dim":
-                    res.fail(Finding("MS-SPLIT", inv.module, inv.qualname, cat, "inverse must concatenate along self._split_dim"))
-                elts = cat.args[0].elts if cat.args and isinstance(cat.args[0], (ast.List, ast.Tuple)) else []
-                # [emitted piece (from the flat input), carried piece (running hiddens)]
-                loopv = None
-                for n in ast.walk(inv.node):
-                    if isinstance(n, ast.For) and cat in list(ast.walk(n)):
-                        loopv = n
-                if len(elts) == 2 and loopv is not None and isinstance(loopv.target, ast.Tuple):
-                    tnames = [norm_text(e) for e in loopv.target.elts]
-                    piece = tnames[1] if len(tnames) > 1 else None
-                    got = [norm_text(e) for e in elts]
-                    if got[0] == piece and got[1] != piece:
-                        res.ok("inverse: cat([emitted piece `%s`, carried `%s`])" % (got[0], got[1]))
-                    else:
-                        res.fail(Finding("MS-SPLIT", inv.module, inv.qualname, cat, "inverse must concatenate [emitted piece, carried hiddens] in that order -- forward emits the FIRST chunk; found %s" % got))
-                else:
-                    res.undecide("inverse cat", "operands not recognised")
-        else:
-            res.undecide("forward chunk", "result is not unpacked into two names")
-    # (c) flat layout
-    ftxt = norm_text(fwd.node)
-    fpaths = [pp for pp in paths_of(fwd.node) if pp.kind == "return"]
-    flat_ok = False
-    if len(fpaths) == 1 and isinstance(fpaths[0].ret, ast.Tuple) and fpaths[0].ret.elts:
-        fbound = set()
-        for n in ast.walk(fwd.node):
-            if isinstance(n, ast.For):
-                fbound |= {x.id for x in ast.walk(n.target) if isinstance(x, ast.Name)}
-        o = _canon_alpha(_alpha_text(fpaths[0].ret.elts[0], fbound)).replace(" ", "")
-        flat_ok = o in ("torch.cat(__append__([],$A.reshape(inputs.shape[0],-1)),dim=-1)", "torch.cat(__append__([],$A.reshape(inputs.shape[0],-1)),dim=1)", "torch.cat(__append__([],$A.flatten(1)),dim=-1)", "torch.cat(__append__([],$A.flatten(1)),dim=1)", "torch.cat(__append__([],$A.view(inputs.shape[0],-1)),dim=-1)")
-    if flat_ok:
-        res.ok("forward: pieces flattened per item in stage order and concatenated on the last axis")
-    else:
-        res.fail(Finding("MS-SPLIT", fwd.module, fwd.qualname, fwd.node, "forward must flatten every emitted piece per item and concatenate them in stage order on the last axis", construct="flat output layout"))
-    # inverse: work on the symbolic expansion (local names eliminated, loop variables alpha-renamed)
-    ipaths = [pp for pp in paths_of(inv.node) if pp.kind == "return"]
-    if len(ipaths) != 1:
-        res.undecide("inverse", "expected one returning path, found %d" % len(ipaths))
-        itxt = ""
-        iter_txt = ""
-    else:
-        bound = set()
-        for n in ast.walk(inv.node):
-            if isinstance(n, ast.For):
-                bound |= {x.id for x in ast.walk(n.target) if isinstance(x, ast.Name)}
-            elif isinstance(n, ast.comprehension):
-                bound |= {x.id for x in ast.walk(n.target) if isinstance(x, ast.Name)}
-        itxt = _alpha_text(ipaths[0].ret, bound)
-        iter_txt = " ; ".join(_alpha_text(eff[2], bound) for eff in ipaths[0].effects if eff[0] == "for")
-    inv_list = "[$A.inverse for $A in self._transforms[::-1]]"
-    alts_inv = (inv_list, "[$A.inverse for $A in reversed(self._transforms)]", "list($A.inverse for $A in self._transforms[::-1])")
-    bounds = "np.insert(np.cumsum([np.prod($A) for $A in self._output_shapes]), 0, 0)"
-    piece = "inputs[:, %s[$A]:%s[$A + 1]].view(-1, *self._output_shapes[$A])" % (bounds, bounds)
-    checks = [
-        (lambda t: any(a in t for a in alts_inv), "stages are inverted, in reverse order"),
-        (lambda t: bounds in t, "slice boundaries are 0 followed by the cumulative sizes of the recorded output shapes in stage order"),
-        (lambda t: piece in t or piece.replace(".view(", ".reshape(") in t, "piece i is the i-th slice of the flat input viewed with the i-th recorded shape"),
-        (lambda t: ")[::-1][0], context)" in t or "))[0], context)" in t, "pieces are consumed in reverse stage order, the last stage's piece first"),
-    ]
-    norm = _canon_alpha(itxt)
-    for pred, why in checks:
-        if pred(norm):
-            res.ok("inverse: %s" % why)
-        else:
-            res.fail(Finding("MS-SPLIT", inv.module, inv.qualname, inv.node, "inverse bookkeeping: %s" % why, construct="inverse: " + why))
-    it_norm = _canon_alpha(iter_txt)
-    if "range(len(self._output_shapes))" in it_norm:
-        res.ok("inverse: one piece per recorded stage")
-    else:
-        res.fail(Finding("MS-SPLIT", inv.module, inv.qualname, inv.node, "inverse must cut one piece per recorded output shape", construct="inverse: one piece per stage"))
-    if any(("zip(%s[1:], " % a) in it_norm for a in alts_inv) and "[::-1][1:])" in it_norm:
-        res.ok("inverse: the remaining stages are paired with the remaining pieces in the same (reversed) order")
-    else:
-        res.fail(Finding("MS-SPLIT", inv.module, inv.qualname, inv.node, "inverse must pair the remaining inverted stages with the remaining pieces, both in reversed stage order", construct="inverse: pairing of stages and pieces"))
-    # (d) last stage unsplit in forward / first in inverse
-    if "self._transforms[-1](hiddens, context)" in ftxt and "self._transforms[:-1]" in ftxt:
-        res.ok("forward: the last stage is applied to the carried part without splitting")
-    else:
-        res.fail(Finding("MS-SPLIT", fwd.module, fwd.qualname, fwd.node, "the last stage must be applied to the carried part without a split", construct="last stage in forward"))
-    if any((a + "[0](") in norm for a in alts_inv) and "torch.cat([" in norm:
-        res.ok("inverse: the last stage is inverted first, on its own piece, without concatenation")
-    else:
-        res.fail(Finding("MS-SPLIT", inv.module, inv.qualname, inv.node, "the last stage must be inverted first on its own piece, the remaining stages on cat([piece, hiddens])", construct="last stage in inverse"))
-    # (e) log-dets of all stages accumulated
-    for fi, cnt in ((fwd, 1), (inv, 2)):
-        augs = [n for n in ast.walk(fi.node) if isinstance(n, ast.AugAssign) and isinstance(n.op, ast.Add) and norm_text(n.target) == "total_logabsdet" and norm_text(n.value) == "logabsdet"]
-        if len(augs) >= cnt:
-            res.ok("%s: every stage's log-det is accumulated (%d sites)" % (fi.name, len(augs)))
-        else:
-            res.fail(Finding("MS-SPLIT", fi.module, fi.qualname, fi.node, "%s must accumulate the log-det of every stage (found %d accumulation sites, expected %d)" % (fi.name, len(augs), cnt), construct="log-det accumulation in " + fi.name))
+                res.fail(Finding("MS-SPLIT", fi.module, fi.qualname, fi.node, "%s is not the composition of its stages (evaluated with %d stage(s)): %s" % (nm, k, dd), construct="%s with %d stage(s)" % (nm, k)))
     return [res, st]
 
 
